@@ -316,6 +316,9 @@ def run(F, rep, tier):
     from . import c15
     rep.attempt(c15.rule_r7, F, rep)
     rep.attempt(rule_r7, F, rep)
+    # the lexer's lossy UTF-8 decoder: a sequence outside Unicode Table 3-7 that is accepted reaches char::from_u32(..).unwrap()
+    from . import c14
+    rep.attempt(c14.rule_r3, F, rep)
     rep.assume("evaluator data-stack balance, index/arithmetic-overflow panics and unreachable!() reachability are "
                "not decided (no whole-evaluator stack-effect typing)")
     return EXPLANATION
